@@ -17,6 +17,7 @@ mod modgen;
 mod c12;
 mod c13;
 mod c14;
+mod c15;
 mod gen_builders;
 mod util;
 
@@ -38,6 +39,7 @@ fn run_property(id: &str, tier: &str) -> Option<Run> {
         "C12" => c12::run(tier),
         "C13" => c13::run(tier),
         "C14" => c14::run(tier),
+        "C15" => c15::run(tier),
         _ => return None,
     })
 }
@@ -72,6 +74,7 @@ fn main() {
             "C12" => c12::replay(&v["replay"]),
             "C13" => c13::replay(&v["replay"]),
             "C14" => c14::replay(&v["replay"]),
+            "C15" => c15::replay(&v["replay"]),
             _ => Err(format!("no replay for property {prop}")),
         };
         match res {
